@@ -144,7 +144,7 @@ static ShortInt DecodeReg8(char const* pAsc) {
         for (z = 0; *Reg8Names[z]; z++) {
             if (!as_strcasecmp(pAsc, Reg8Names[z])) {
                 /* map to 8..11 resp. 10..15 */
-                Result = (z > 4) ? z + 6 : z + 8;
+                Result = (z >= 4) ? z + 6 : z + 8;
                 break;
             }
         }
